@@ -504,6 +504,24 @@ func OkE11FreshObject(addr string, ready bool) (*holder, error) {
 	return h, nil
 }
 
+// ---- E12a: closing a channel that was never made
+type CQ struct {
+	done chan struct{}
+	lazy chan struct{}
+}
+
+func NewCQ() *CQ { return &CQ{done: make(chan struct{})} }
+
+func (x *CQ) OkE12Close() { close(x.done) }
+
+func (x *CQ) BadE12CloseLazy() { close(x.lazy) }
+
+func (x *CQ) Start() {
+	if x.lazy == nil {
+		x.lazy = make(chan struct{})
+	}
+}
+
 // ---- re-arming a timer field
 func (x *N) BadRearm(d time.Duration) {
 	x.tm = time.AfterFunc(d, func() {})
@@ -547,6 +565,8 @@ type P struct {
 	ready chan struct{}
 	peer  *P
 }
+
+func NewP() *P { return &P{ready: make(chan struct{})} }
 
 func BadPublish(a, b *P) {
 	close(a.ready)
@@ -704,7 +724,7 @@ func runSelfTests(verifDir string) SelfTestResult {
 		"BadE13Resize":            "e13",
 		"BadE14Add":               "e14",
 	}
-	silent := []string{"okE1Defer", "OkE3Read", "OkE3bRecheck", "OkCondWait", "OkE5Once", "OkE5UniqueThenWrite", "OkE6d", "OkE6dRange", "SetN", "Close", "NewT", "OkE5Loop", "OkBufferBeforeFree", "OkE11Closed", "OkE11StoredFirst", "OkForward", "OkPublish", "OkFullRead", "Arm", "OkE12Stop", "OkE12Helper", "peerReady", "OkE12Companion", "OkE12Map", "OkE12LazyMap", "OkE13Resize", "NewW", "Wait", "OkE14Del", "All", "OkE11FreshObject", "OkRearm"}
+	silent := []string{"okE1Defer", "OkE3Read", "OkE3bRecheck", "OkCondWait", "OkE5Once", "OkE5UniqueThenWrite", "OkE6d", "OkE6dRange", "SetN", "Close", "NewT", "OkE5Loop", "OkBufferBeforeFree", "OkE11Closed", "OkE11StoredFirst", "OkForward", "OkPublish", "OkFullRead", "Arm", "OkE12Stop", "OkE12Helper", "peerReady", "OkE12Companion", "OkE12Map", "OkE12LazyMap", "OkE13Resize", "NewW", "Wait", "OkE14Del", "All", "OkE11FreshObject", "OkRearm", "OkE12Close", "NewCQ", "Start", "NewP"}
 	var names []string
 	for k := range want {
 		names = append(names, k)
